@@ -17,7 +17,7 @@ RULE = (
     "Hypothesis draws a document D from the union of the document families and 1-6 noise insertions N from: comment, "
     "processing instruction, title/desc/metadata (with text, foreign and SVG-looking children), foreign-namespace "
     "element (optionally with SVG-looking children) or attribute, id-less symbol with content, attribute-less wrapper "
-    "<g> around 1-3 consecutive siblings (inside svg/g only), empty <g/>, inter-element whitespace, XML declaration - "
+    "<g> around 1-3 consecutive siblings (inside svg/g only), empty <g/>, inter-element whitespace, XML declaration, id-less symbol whose content carries ids, comment / processing instruction before or after the document element - "
     "at random legal tree positions incl. inside defs, clipPaths, gradients and groups. Oracle (metamorphic): "
     "convert(N(D)) must equal convert(D) after canonicalising generated gradient ids (renumbered by first reference), "
     "sorting gradients in defs and comparing gradient numeric attributes with tolerance 1e-5 (a few units of the 6th decimal: double rounding); if one side raises the other must "
